@@ -320,15 +320,6 @@ def run(tier, seed):
     swapped = compile_sheets(pool, [sheet_text(list(reversed(it))) for it, _ in sheets])
     lap("compiled swapped")
 
-    # model runs + expectations
-    lines = []
-    for items, _ in sheets:
-        d = driver_items(items)
-        lines.append("ext run 1 1 0 " + d)        # the code as it stands: D16/D18 switches on, repaired walk in trim
-        lines.append("ext expect " + d)
-    outs = driver(lines)
-    lap("model runs")
-
     failing = []
 
     def fail(case, payload, tags):
@@ -337,6 +328,26 @@ def run(tier, seed):
         p["expected_by_property"] = EXPECT
         p["tags"] = list(tags)
         failing.append((len(case), case, p, list(tags)))
+
+    # X6 (fixed, 13c9676): equal selectors on two style rules — every one of 50 compiles must extend both rules
+    x6_src = ".m { i: 0 }\n.m { i: 1 }\n.q { i: 2; @extend .m; }"
+    for ans in compile_sheets(pool, [x6_src] * 50):
+        ck.hist("x6-regression:" + ans[0])
+        sels = {k: v[0] for k, v in ans[1].items()} if ans[0] == "ok" else None
+        if sels is None or sels.get(0) != ".m, .q" or sels.get(1) != ".m, .q":
+            fail(x6_src, {"impl_observation": sels if sels is not None else ans[:2],
+                          "why": "a rule whose selector is written twice was not extended (must be deterministic)"}, ["too-little", "X6"])
+            break
+    lap("x6 regression")
+
+    # model runs + expectations
+    lines = []
+    for items, _ in sheets:
+        d = driver_items(items)
+        lines.append("ext run 1 1 0 " + d)        # the code as it stands: D16/D18 switches on, repaired walk in trim
+        lines.append("ext expect " + d)
+    outs = driver(lines)
+    lap("model runs")
 
     def disagree(d):
         ck.cov["model_disagreements"] += 1
